@@ -194,6 +194,27 @@ impl Exec {
         let mut planes = Planes::new();
         planes.aircrafts = table.clone();
         LAST_PANIC_GLOBAL.lock().map(|mut g| *g = None).ok();
+        // optional: another thread keeps taking (and briefly holding) read guards on the public table while the reader
+        // runs - what any consumer of `Planes.aircrafts` may do; the reader must wait for the lock, not skip the frame
+        let contend = cmd.get("contend").and_then(|b| b.as_bool()).unwrap_or(false);
+        let stop = Arc::new(std::sync::atomic::AtomicBool::new(false));
+        let contender = if contend {
+            let (t2, s2) = (table.clone(), stop.clone());
+            Some(std::thread::spawn(move || {
+                while !s2.load(std::sync::atomic::Ordering::Relaxed) {
+                    {
+                        let _g = t2.read();
+                        std::thread::sleep(std::time::Duration::from_micros(400));
+                    }
+                    std::thread::sleep(std::time::Duration::from_micros(150));
+                }
+            }))
+        } else {
+            None
+        };
+        if contend {
+            std::thread::sleep(std::time::Duration::from_millis(2));
+        }
         let tb = Utc::now();
         let h = spawn_reader_thread(args.clone(), planes);
         // a reader that never returns is data too ("fails to terminate"): wait with a deadline
@@ -223,6 +244,10 @@ impl Exec {
         }
         let r = h.join();
         let ta = Utc::now();
+        stop.store(true, std::sync::atomic::Ordering::Relaxed);
+        if let Some(c) = contender {
+            let _ = c.join();
+        }
         let out = match r {
             Ok(Ok(())) => "ok".to_string(),
             Ok(Err(e)) => format!("err:{}", e),
